@@ -74,6 +74,60 @@ def run(args, stdin, timeout=20, failing_stdin=False, full_stdout=False, chunks=
             "rc": p.returncode}
 
 
+def build_fault():
+    """the fault-injection harness tools/faultreplay: jawk::go of the tree under test on a standard input whose read fails at one offset"""
+    if "fault" in _built:
+        return _built["fault"]
+    import shutil
+    src = os.path.join(HERE, "faultreplay")
+    tdir = TARGET.rstrip("/") + "-fault"
+    crate = os.path.join(tdir, "crate")
+    os.makedirs(os.path.join(crate, "src"), exist_ok=True)
+    shutil.copy(os.path.join(src, "src", "main.rs"), os.path.join(crate, "src", "main.rs"))
+    with open(os.path.join(src, "Cargo.toml.in")) as f:
+        toml = f.read().replace("@REPO@", os.path.abspath(REPO))
+    with open(os.path.join(crate, "Cargo.toml"), "w") as f:
+        f.write(toml)
+    if os.path.exists(os.path.join(REPO, "Cargo.lock")):
+        shutil.copy(os.path.join(REPO, "Cargo.lock"), os.path.join(crate, "Cargo.lock"))
+    env = dict(os.environ, CARGO_NET_OFFLINE="true", CARGO_TARGET_DIR=tdir)
+    p = subprocess.run(["cargo", "build", "--offline", "--quiet", "--manifest-path", os.path.join(crate, "Cargo.toml")],
+                       capture_output=True, text=True, env=env)
+    if p.returncode != 0:
+        _built["fault"] = None
+        _built["fault_err"] = p.stderr[-2000:]
+        return None
+    _built["fault"] = os.path.join(tdir, "debug", "faultreplay")
+    return _built["fault"]
+
+
+def run_fault_sweep(args, stdin, timeout=20):
+    """C16: for EVERY byte offset k of the input (and the end-of-input position), a read that fails there — for good, or once — must
+    make the run fail (exit status of an Err, no panic, never success), and what was printed must be a prefix of the fault-free output"""
+    b = build_fault()
+    if b is None:
+        return {"error": "fault harness build failed: " + _built.get("fault_err", "")}
+    data = stdin.encode("utf-8", "surrogateescape") if isinstance(stdin, str) else bytes(stdin)
+    def one(k, transient):
+        try:
+            p = subprocess.run([b, str(k), "1" if transient else "0"] + list(args), input=data, capture_output=True, timeout=timeout)
+        except subprocess.TimeoutExpired:
+            return {"timeout": True, "rc": None, "stdout": b"", "stderr": b""}
+        return {"rc": p.returncode, "stdout": p.stdout, "stderr": p.stderr}
+    clean = one(len(data) + 10, False)
+    if clean.get("rc") != 0:
+        return {"error": "the fault-free run of the sweep input does not succeed (rc %s): %s" % (clean.get("rc"), clean.get("stderr", b"")[-300:])}
+    for k in range(len(data) + 1):
+        for transient in (False, True):
+            r = one(k, transient)
+            ok = r.get("rc") == 3 and clean["stdout"].startswith(r["stdout"])
+            if not ok:
+                return {"fault_at": k, "transient": transient, "rc": r.get("rc"), "timeout": r.get("timeout", False),
+                        "stdout": r["stdout"].decode("utf-8", "replace"), "stderr": r["stderr"].decode("utf-8", "replace")[-600:],
+                        "fault_free_stdout": clean["stdout"].decode("utf-8", "replace"), "sweep_failed": True}
+    return {"rc": 3, "stdout": "", "stderr": "", "sweep": "every offset 0..%d, persistent and transient: failed with an error, output a prefix" % len(data)}
+
+
 def run_endless(args, line, via_file, timeout=10):
     """An UNBOUNDED input: `line` repeated for ever, on stdin or through a named pipe given as the file argument {FIFO}.
     The run must end by itself (C14); a run still going after `timeout` seconds is killed and reported as a timeout."""
@@ -181,6 +235,11 @@ def run_probe(probe):
                     obs[k] = obs[k].replace(tmp, "{DIR}")
         finally:
             shutil.rmtree(tmp, ignore_errors=True)
+    elif probe.get("fault_sweep"):
+        obs = run_fault_sweep(probe.get("args", []), bytes.fromhex(probe["stdin_hex"]) if "stdin_hex" in probe else probe.get("stdin", ""))
+        if "error" in obs:
+            return None, obs
+        return (not obs.get("sweep_failed")), obs
     elif "endless" in probe:
         obs = run_endless(probe.get("args", []), probe["endless"], any("{FIFO}" in a for a in probe.get("args", [])))
     else:
